@@ -12,6 +12,7 @@ import Pastel.Model.SetCmd
 import Pastel.Model.Format
 import Pastel.Model.Parser
 import Pastel.Model.Cli
+import Pastel.Model.Scale
 
 namespace Pastel
 namespace Cli
@@ -25,6 +26,8 @@ inductive Err where
   | couldNotParseNumber (text : String)
   | noColorPickerFound
   | stdoutClosed
+  | gradientNumber
+  | gradientColorCount
 deriving Repr, DecidableEq
 
 /-- `PastelError::message`. -/
@@ -36,6 +39,8 @@ def Err.message : Err → String
   | .couldNotParseNumber n => "Could not parse number '" ++ n ++ "'"
   | .noColorPickerFound => "Could not find any external color picker tool. See 'pastel pick --help' for more information."
   | .stdoutClosed => "Output pipe has been closed"
+  | .gradientNumber => "The specified color count must be larger than one"
+  | .gradientColorCount => "The number of color arguments must be larger than one"
 
 /-- `main`: `StdoutClosed` exits silently with 0, every other error with 1. -/
 def Err.exitCode : Err → Nat
@@ -93,6 +98,8 @@ def colorFromArg (arg : String) (stdin : List StdinLine) : Except Err Col × Lis
 structure Outcome where
   lines : List String
   err : Option Err
+  /-- text written after the last complete line (only `paint --no-newline`) -/
+  tail : String := ""
 deriving Repr
 
 def Outcome.exitCode (o : Outcome) : Nat := match o.err with | none => 0 | some e => e.exitCode
@@ -218,10 +225,137 @@ def runMix (args : List String) (colors : List String) (stdin : List StdinLine) 
         if colors.isEmpty then loopStdin cmd stdin' else loopArgs cmd colors stdin'
   | _ => { lines := [], err := none }
 
+/-- Rust `str::parse::<usize>` on a 64-bit target: an optional `+`, at least one ASCII digit,
+nothing else, no overflow. -/
+def parseUsize (s : List Char) : Option Nat :=
+  let body : List Char := match s with
+    | '+' :: r => r
+    | _ => s
+  if body.isEmpty || !body.all P.isDigit then none
+  else
+    let n := P.digitsToNat body
+    if n < 18446744073709551616 then some n else none
+
+def fail (e : Err) : Outcome := { lines := [], err := some e }
+
+/-- All colour arguments of a command that collects them before printing: resolved in order, each
+`-` consuming one stdin line; the first error ends the run. -/
+def collectArgs : List String → List StdinLine → Except Err (List Col)
+  | [], _ => .ok []
+  | a :: rest, stdin =>
+    match colorFromArg a stdin with
+    | (.error e, _) => .error e
+    | (.ok c, stdin') =>
+      match collectArgs rest stdin' with
+      | .error e => .error e
+      | .ok cs => .ok (c :: cs)
+
+/-- … and all stdin lines. -/
+def collectStdin : List StdinLine → Except Err (List Col)
+  | [] => .ok []
+  | l :: rest =>
+    match colorFromStdin [l] with
+    | (.error e, _) => .error e
+    | (.ok c, _) =>
+      match collectStdin rest with
+      | .error e => .error e
+      | .ok cs => .ok (c :: cs)
+
+def spaceOfArg (sp : String) : Space :=
+  match sp.toLower with
+  | "rgb" => .rgb | "hsl" => .hsl | "lch" => .lch | "oklab" => .oklab | _ => .lab
+
+/-- `GrayCommand`: `args = [lightness]`. -/
+def runGray (args : List String) : Outcome :=
+  match args with
+  | [l] =>
+    match numberArg l with
+    | .error e => fail e
+    | .ok x => { lines := [showColor (graytone x)], err := none }
+  | _ => { lines := [], err := none }
+
+/-- `GradientCommand`: `args = [number, colorspace]`. The count is validated first, then the number
+of colour arguments, then the colours are read in order; only then is anything printed. -/
+def runGradient (args : List String) (colors : List String) (stdin : List StdinLine) : Outcome :=
+  match args with
+  | [n, sp] =>
+    match parseUsize n.toList with
+    | none => fail (.couldNotParseNumber n)
+    | some count =>
+      if count < 2 then fail .gradientNumber
+      else if colors.length < 2 then fail .gradientColorCount
+      else
+        match collectArgs colors stdin with
+        | .error e => fail e
+        | .ok cs =>
+          let space := spaceOfArg sp
+          let samples := gradient (P := Float) cs count (fun a b f => mix space a b f)
+          { lines := samples.map (fun o => match o with | some c => showColor c | none => "<panic: gradient color>"),
+            err := none }
+  | _ => { lines := [], err := none }
+
+/-- The integer sort key of `sort-by` / `list` for the four deterministic orders. -/
+def sortKeyOf (order : String) (c : Col) : Int :=
+  match order with
+  | "brightness" => Sc.toI32 (brightness c * 1000.0)
+  | "luminance" => Sc.toI32 (luminance c * 1000.0)
+  | "hue" => Sc.toI32 ((toLch c).z * 1000.0)
+  | _ => Sc.toI32 ((toLch c).y * 1000.0)
+
+def packedOf (c : Col) : Nat :=
+  let q := toRgba8 c
+  q.r.toNat * 65536 + q.g.toNat * 256 + q.b.toNat
+
+/-- `SortCommand`: `args = [order, unique, reverse]` (`"1"` = flag given). All colours are collected
+first (arguments, or every stdin line), so an unreadable one means no output at all. -/
+def runSort (args : List String) (colors : List String) (stdin : List StdinLine) : Outcome :=
+  match args with
+  | [order, u, r] =>
+    let collected := if colors.isEmpty then collectStdin stdin else collectArgs colors stdin
+    match collected with
+    | .error e => fail e
+    | .ok cs =>
+      let items : List SortItem := (cs.zipIdx).map fun ci => { tag := ci.2, packed := packedOf ci.1, key := sortKeyOf order ci.1 }
+      let sorted := sortCmd (u = "1") (r = "1") items
+      { lines := sorted.map (fun it => match cs[it.tag]? with | some c => showColor c | none => ""), err := none }
+  | _ => { lines := [], err := none }
+
+/-- `PaintCommand` with the text given as arguments, colour off (stdout is a pipe): `args =
+[fg, bg-or-"", no-newline]`, `colors` are the text words. Foreground and background are validated
+(the foreground may be `-`, one stdin line, or `default`), then the text is printed unpainted. -/
+def runPaint (args : List String) (words : List String) (stdin : List StdinLine) : Outcome :=
+  match args with
+  | [fg, bg, nn] =>
+    let fgRes : Except Err Unit :=
+      if String.ofList (P.trim fg.toList) = "default" then .ok ()
+      else match colorFromArg fg stdin with
+        | (.error e, _) => .error e
+        | (.ok _, _) => .ok ()
+    match fgRes with
+    | .error e => fail e
+    | .ok _ =>
+      let bgRes : Except Err Unit :=
+        if bg = "" then .ok ()
+        else match P.parseColor bg.toList with
+          | some _ => .ok ()
+          | none => .error (.colorParse bg)
+      match bgRes with
+      | .error e => fail e
+      | .ok _ =>
+        let text := " ".intercalate words
+        -- with `--no-newline` the text is written without a line end: the model's `lines` are complete
+        -- lines, so that case is reported through `tail`
+        if nn = "1" then { lines := [], err := none, tail := text } else { lines := [text], err := none }
+  | _ => { lines := [], err := none }
+
 /-- The whole run of a modelled subcommand: colours from the arguments if there are any,
 otherwise from stdin (which is a pipe). -/
 def run (sub : String) (args : List String) (colors : List String) (stdin : List StdinLine) : Outcome :=
   if sub = "mix" then runMix args colors stdin
+  else if sub = "gray" then runGray args
+  else if sub = "gradient" then runGradient args colors stdin
+  else if sub = "sort-by" then runSort args colors stdin
+  else if sub = "paint" then runPaint args colors stdin
   else if colors.isEmpty then loopStdin (commandBody sub args) stdin
   else loopArgs (commandBody sub args) colors stdin
 
